@@ -92,14 +92,15 @@ FW_PLANS = {
         verdicts={"C07"},
         rule=RULE % "a completion that consumed the state limit (a decrement)",
         quick=dict(
-            mc=[C("limit-quick", "limit", 4, 1, "one", ["Inv_C07"])],
-            gen=[C("limit-quick", "limit", 3, 1, "one"), C("limit-quick", "limit", 1, 3, "one")],
+            mc=[C("limit-quick", "limit", 4, 1, "one", ["Inv_C07"]), C("limit-reenter", "limit", 3, 1, "one", ["Inv_C07"])],
+            gen=[C("limit-quick", "limit", 3, 1, "one"), C("limit-quick", "limit", 1, 3, "one"),
+                 C("limit-reenter", "limit", 3, 1, "one")],
             rand=dict(scenarios=300, calls=30)),
         thorough=dict(
             workers=14,
             mc=[C("limit-quick", "limit", 3, 2, "one", ["Inv_C07"]),
-                C("limit-thorough", "limit", 4, 1, "one", ["Inv_C07"])],
-            gen=[C("limit-quick", "limit", 4, 1, "one")],
+                C("limit-thorough", "limit", 4, 1, "one", ["Inv_C07"]), C("limit-reenter", "limit", 4, 1, "one", ["Inv_C07"])],
+            gen=[C("limit-quick", "limit", 4, 1, "one"), C("limit-reenter", "limit", 3, 2, "one")],
             rand=dict(scenarios=3000, calls=60))),
     "C08": dict(
         verdicts={"C08"},
